@@ -223,7 +223,27 @@ class FieldData:
           for ref in v:
             self._add_reference(ref, k)
             self._update_backreference_in(ref, previous, k)
+        self._merge_placeholder_links()
       self._gfa._register_line(self)
+
+  def _merge_placeholder_links(self):
+    # the placeholder links created by paths, which are equivalent to links
+    # that the renamed segment already has, are replaced by those links
+    if self.record_type != "S" or self.version != "gfa1":
+      return
+    for vl in [l for l in self.dovetails if l.virtual]:
+      if not vl.is_connected():
+        continue # (a hairpin link is listed twice)
+      for rl in self.dovetails:
+        if not rl.virtual and isinstance(rl, gfapy.line.edge.Link) and \
+            rl.is_compatible(vl.oriented_from, vl.oriented_to,
+                             vl.alignment, True):
+          for path in list(vl._refs.get("paths", [])):
+            rl._add_reference(path, "paths")
+            path._update_references(vl, rl, "links")
+          vl._refs["paths"] = []
+          vl.disconnect()
+          break
 
   def _dealias_fieldname(self, fieldname):
     return self.__class__.FIELD_ALIAS.get(fieldname, fieldname)
